@@ -56,6 +56,7 @@ type viol struct {
 	Req   uint64 `json:"req,omitempty"`   // ... under feature sets containing these features
 	Args  int    `json:"args,omitempty"`
 	Ref   string `json:"ref,omitempty"` // hex of the module the input must behave like
+	Rej   bool   `json:"reject,omitempty"` // the input carries the must-be-rejected requirement
 }
 
 type sample struct {
@@ -279,7 +280,7 @@ func (c *childState) addViol(res *chunkRes, sig, what string, in input, f int) {
 	if f >= 0 {
 		fsn = featureSets[f].Name
 	}
-	res.Viol = append(res.Viol, viol{Sig: sig, What: what, Tag: in.Tag, Hex: hex.EncodeToString(in.B), FS: fsn, Valid: in.Valid, Req: uint64(in.Req), Args: in.ArgSets, Ref: hex.EncodeToString(in.Ref)})
+	res.Viol = append(res.Viol, viol{Sig: sig, What: what, Tag: in.Tag, Hex: hex.EncodeToString(in.B), FS: fsn, Valid: in.Valid, Req: uint64(in.Req), Args: in.ArgSets, Ref: hex.EncodeToString(in.Ref), Rej: in.Reject})
 }
 
 func outcomeSample(res *chunkRes, in input, outcome string) {
@@ -347,6 +348,13 @@ func (c *childState) compileAll(ci, k int, in input, skipC map[[2]int]bool, res 
 				r.cm.Close(c.h.ctx)
 			}
 		}
+		if in.Reject {
+			res.ValidChecked++
+			if r.res == "accept" {
+				c.addViol(res, "invalid-accepted:"+validClass(in.Tag),
+					fmt.Sprintf("by-construction-INVALID module %s accepted under %s", in.Tag, featureSets[f].Name), in, f)
+			}
+		}
 		if in.Valid && fsContains(f, uint64(in.Req)) && (!in.IfSeed || c.seedAcc[f]) {
 			res.ValidChecked++
 			if r.res != "accept" {
@@ -380,6 +388,9 @@ func validClass(tag string) string {
 	}
 	if strings.HasPrefix(tag, "family:E:") {
 		return "family:E"
+	}
+	if strings.HasPrefix(tag, "family:dead:") {
+		return "family:dead-code"
 	}
 	return tag
 }
@@ -493,8 +504,29 @@ func (c *childState) executeOne(ci int, es *evalState, skipX map[int]bool, res *
 		res.Outcomes["exec:harness-decode-failed"]++
 		return
 	}
-	var ts [2]*transcript
 	cms := [2]wazero.CompiledModule{es.cmI, es.cmC}
+	if in.Valid {
+		// the signatures a compiled valid module publishes must be the declared ones (read by the own walker)
+		if want, ok := exportSigs(in.B); ok {
+			for e := 0; e < 2; e++ {
+				defs := cms[e].ExportedFunctions()
+				for name, sig := range want {
+					d := defs[name]
+					if d == nil || string(d.ParamTypes()) != string(sig[0]) || string(d.ResultTypes()) != string(sig[1]) {
+						got := "missing"
+						if d != nil {
+							got = fmt.Sprintf("%x -> %x", d.ParamTypes(), d.ResultTypes())
+						}
+						c.addViol(res, "signature-corrupted:"+engName[e], fmt.Sprintf("exported function %q of a valid module is declared %x -> %x but the compiled module (%s, %s) reports %s",
+							name, sig[0], sig[1], engName[e], featureSets[f].Name, got), in, f)
+						break
+					}
+				}
+			}
+			res.Outcomes["signatures-compared"]++
+		}
+	}
+	var ts [2]*transcript
 	for e := 0; e < 2; e++ {
 		// an accepted guest may legitimately allocate up to 1 GiB (table.grow): start every execution from
 		// a collected heap so that whether the child survives does not depend on GC timing
@@ -838,7 +870,7 @@ func main() {
 		}
 	}
 	for _, v := range viols {
-		run.Violation(v.Sig, v.What+" [input "+v.Tag+"]", map[string]any{"hex": v.Hex, "fs": v.FS, "tag": v.Tag, "valid": v.Valid, "req": v.Req, "argsets": v.Args, "ref": v.Ref})
+		run.Violation(v.Sig, v.What+" [input "+v.Tag+"]", map[string]any{"hex": v.Hex, "fs": v.FS, "tag": v.Tag, "valid": v.Valid, "req": v.Req, "argsets": v.Args, "ref": v.Ref, "reject": v.Rej})
 	}
 
 	os.RemoveAll(dir) // run.Finish exits the process: deferred clean-up would not run
@@ -918,7 +950,7 @@ func loadKnown() func(sig string) bool {
 // shows up again (as a reported violation or as a process death).
 func reproduces(dir string, v viol) bool {
 	hf := dir + "/confirm.json"
-	js, _ := json.Marshal([]map[string]any{{"hex": v.Hex, "tag": v.Tag, "valid": v.Valid, "req": v.Req, "argsets": v.Args, "ref": v.Ref}})
+	js, _ := json.Marshal([]map[string]any{{"hex": v.Hex, "tag": v.Tag, "valid": v.Valid, "req": v.Req, "argsets": v.Args, "ref": v.Ref, "reject": v.Rej}})
 	os.WriteFile(hf, js, 0o600)
 	sub := dir + "/confirm"
 	os.MkdirAll(sub, 0o700)
@@ -1021,6 +1053,7 @@ func replayMain(file string) {
 		Replay    struct {
 			Hex, FS, Tag string
 			Ref          string
+			Reject       bool
 			Valid        bool
 			Req          uint64
 			ArgSets      int
@@ -1032,7 +1065,7 @@ func replayMain(file string) {
 	dir, _ := os.MkdirTemp("", "c03-replay-")
 	defer os.RemoveAll(dir)
 	hf := dir + "/in.json"
-	js, _ := json.Marshal([]map[string]any{{"hex": art.Replay.Hex, "tag": art.Replay.Tag, "valid": art.Replay.Valid, "req": art.Replay.Req, "argsets": art.Replay.ArgSets, "ref": art.Replay.Ref}})
+	js, _ := json.Marshal([]map[string]any{{"hex": art.Replay.Hex, "tag": art.Replay.Tag, "valid": art.Replay.Valid, "req": art.Replay.Req, "argsets": art.Replay.ArgSets, "ref": art.Replay.Ref, "reject": art.Replay.Reject}})
 	os.WriteFile(hf, js, 0o600)
 	fmt.Printf("replaying %s\n  input (%d bytes): %s\n  recorded: %s\n", art.Signature, len(art.Replay.Hex)/2, art.Replay.Hex, art.What)
 	failed := false
